@@ -134,3 +134,116 @@ def classify_flat(a, b, exp):
         return "crossing/hit-at-end" if (t == lo or t == hi) else "crossing/hit-interior"
     finally:
         K.ST.margin, K.ST.decisions = saved
+
+
+# --------------------------------------------------------------------------
+# bodies: exact location / position classes (no margins recorded)
+
+def _quiet(fn):
+    def w(*a, **k):
+        saved = (K.ST.margin, K.ST.decisions)
+        try:
+            return fn(*a, **k)
+        finally:
+            K.ST.margin, K.ST.decisions = saved
+    return w
+
+
+def body_edges(body):
+    if body[0] == "PG":
+        vs = body[1]
+        return [(vs[i], vs[(i + 1) % len(vs)]) for i in range(len(vs))]
+    es = {}
+    for f in body[2]:
+        for i in range(len(f)):
+            e = frozenset((f[i], f[(i + 1) % len(f)]))
+            es[e] = tuple(e)
+    return list(es.values())
+
+
+def body_faces(body):
+    return [body[1]] if body[0] == "PG" else list(body[2])
+
+
+def _on_seg(x, p, q):
+    d = K.sub(q, p)
+    v = K.sub(x, p)
+    if K.cross(v, d) != (0, 0, 0):
+        return False
+    t = K.dot(v, d)
+    return 0 <= t <= K.dot(d, d)
+
+
+@_quiet
+def locate_point(body, x):
+    """vertex / edge / face / interior / outside (PH);  vertex / edge / interior /
+    in-plane-outside / off-plane (PG)"""
+    if x in body[1]:
+        return "vertex"
+    for p, q in body_edges(body):
+        if _on_seg(x, p, q):
+            return "edge"
+    if body[0] == "PG":
+        n = K.polygon_normal(body[1])
+        if K.dot(n, K.sub(x, body[1][0])) != 0:
+            return "off-plane"
+        return "interior" if K.contains_point(body, x) else "in-plane-outside"
+    if not K.contains_point(body, x):
+        return "outside"
+    for a, b, kind_ in K.constraints(body):
+        if K.dot(a, x) == b:
+            return "face"
+    return "interior"
+
+
+@_quiet
+def classify_f_body(f, body, exp):
+    """position classes of a flat object f against a convex body"""
+    kf = f[0]
+    labels = []
+    if kf == "P":
+        return ["point-" + locate_point(body, f[1])]
+    verts = body[1]
+    if kf in ONE_D:
+        p, d, lo, hi = K.one_d(f)
+        through_v = any(K.cross(K.sub(v, p), d) == (0, 0, 0) for v in verts)
+        along_e = any(K.cross(K.sub(a, p), d) == (0, 0, 0) and K.cross(K.sub(b, p), d) == (0, 0, 0) for a, b in body_edges(body))
+        in_face = False
+        for fc in body_faces(body):
+            n = K.polygon_normal(fc)
+            if K.dot(n, d) == 0 and K.dot(n, K.sub(p, fc[0])) == 0:
+                in_face = True
+        if along_e:
+            labels.append("carrier-along-edge")
+        elif in_face:
+            labels.append("carrier-in-face-plane")
+        elif through_v:
+            labels.append("carrier-through-vertex")
+        else:
+            labels.append("carrier-generic")
+        if kf in ("H", "S"):
+            labels.append("start-" + locate_point(body, p))
+        if kf == "S":
+            labels.append("end-" + locate_point(body, K.add(p, d)))
+        if exp is not None and exp[0] == "P":
+            labels.append("touching-or-single-hit")
+        return labels
+    # plane
+    n, p0 = f[2], f[1]
+    sides = [K.dot(n, K.sub(v, p0)) for v in verts]
+    on = sum(1 for s in sides if s == 0)
+    pos = any(s > 0 for s in sides)
+    neg = any(s < 0 for s in sides)
+    if body[0] == "PG" and on == len(verts):
+        return ["plane-coplanar"]
+    if pos and neg:
+        labels.append("plane-cutting" + ("-through-vertex" if on else ""))
+    elif on == 0:
+        labels.append("plane-missing")
+    elif on == 1:
+        labels.append("plane-tangent-vertex")
+    elif on == 2:
+        labels.append("plane-tangent-edge")
+    else:
+        labels.append("plane-tangent-face")
+    return labels
